@@ -193,6 +193,7 @@ static const vh_op OPS[] = {
     { NULL, NULL }
 };
 
+static int vh_static_ctx = 0;
 int main(int argc, char **argv) {
     char *line = NULL; size_t cap = 0; ssize_t n;
     jout out; memset(&out, 0, sizeof(out));
@@ -203,7 +204,11 @@ int main(int argc, char **argv) {
     secp256k1_ecmult_compute_two_tables(secp256k1_pre_g, secp256k1_pre_g_128, WINDOW_G, &secp256k1_ge_const_g);
 #endif
     signal(SIGALRM, vh_watchdog);
-    CTX = secp256k1_context_create(SECP256K1_CONTEXT_NONE);
+    /* VH_STATIC_CTX=1: the shared context is a COPY of secp256k1_context_static (callbacks may be set on copies, see
+     * secp256k1_context_set_illegal_callback); only records of actions the specification lists as enabled on the static
+     * context (spec/api/StaticCtx.tla) are replayed in this mode */
+    if (getenv("VH_STATIC_CTX") != NULL) { CTX = (secp256k1_context*)malloc(sizeof(*CTX)); memcpy(CTX, secp256k1_context_static, sizeof(*CTX)); vh_static_ctx = 1; }
+    else CTX = secp256k1_context_create(SECP256K1_CONTEXT_NONE);
     secp256k1_context_set_illegal_callback(CTX, vh_illegal_cb, NULL);
     secp256k1_context_set_error_callback(CTX, vh_error_cb, NULL);
     /* VH_CUSTOM_SHA=1: the shared context gets a replaced-but-correct SHA-256 compression function (C20: results must not change) */
@@ -233,6 +238,6 @@ int main(int argc, char **argv) {
     fflush(stdout);
     /* release the harness' own memory so that LeakSanitizer (asan variant) reports only leaks of the library */
     free(line); free(out.b); free(jv_arena); jv_arena = NULL;
-    secp256k1_context_destroy(CTX);
+    if (vh_static_ctx) free(CTX); else secp256k1_context_destroy(CTX);
     return 0;
 }
